@@ -624,7 +624,7 @@ void findAndReplaceComponentsCnUnitsNames(const ComponentPtr &component, const s
     findAndReplaceComponentCnUnitsNames(component, oldName, newName);
     for (size_t index = 0; index < component->componentCount(); ++index) {
         auto childComponent = component->component(index);
-        findAndReplaceComponentCnUnitsNames(childComponent, oldName, newName);
+        findAndReplaceComponentsCnUnitsNames(childComponent, oldName, newName);
     }
 }
 
